@@ -19,8 +19,18 @@ Space   TEMPLATES (written out below) x case re-spellings of their foldable toke
         the quoted mixed-case database (qd). Every occurrence of an identifier is a token of its own, so definition
         and reference of a CTE / alias / MERGE source are re-spelled independently.
 
+        Statement families fakesnow answers from the statement TEXT (TEXT_FAMILIES: tags, users, roles, warehouses,
+        ALTER SESSION, GRANT/REVOKE, stages, CALL, nop_regexes, the spellings of BEGIN/START/COMMIT/ROLLBACK,
+        DESCRIBE/DESC, TRUNCATE [TABLE], SHOW variants, SET/UNSET, CREATE [OR REPLACE] DATABASE, IDENTIFIER(),
+        CURRENT_DATABASE()/CURRENT_SCHEMA()) have templates whose flip tokens are their keywords; the families
+        fakesnow answers itself also exist laid out with two blanks and with a newline between the tokens — each
+        layout a template of its own, with its own all-lower reference, so that only letter case varies inside it.
+
         quick    per template: all-lower, ALL-UPPER, Capitalised, aLtErNaTiNg, every single token in UPPER;
                  every single marked name written as "UPPER", and all of them.
+                 Where a whole-statement Capitalised / aLtErNaTiNg spelling disagrees, the tokens whose UPPER flip
+                 disagrees are also flipped alone in that form (attribution pass), so that classes carry the same
+                 names in both tiers.
         thorough additionally every single token Capitalised / aLtErNaTiNg, all 2^t lower/UPPER assignments for
                  t <= 10 foldable tokens, single + pair flips above; every subset of quoted names (<= 6 names; pairs
                  above), also with the rest in upper case.
@@ -62,7 +72,7 @@ Not demanded
 Classes   C02.respell / C02.quoted: `stmt=<kind>,tok=<token>,form=<upper|capitalised|alternating>` — the first token
           (left to right) whose single flip already changes the outcome and which is flipped in the failing spelling;
           `tok=<combination>` when no single flip explains it. C02.report: `kind=<case|lower|missing>,name=<...>[,stmt=<kind>]
-          [,attr=<database|schema>][,session=<flavour>]`.
+          [,attr=<database|schema>][,session=<flavour>][,via=identifier()]` (via: a name the statement passes as a string).
 """
 from __future__ import annotations
 
@@ -114,6 +124,8 @@ class T:
 
     cols    spelled result column names the statement itself fixes (aliases / plain columns), or None
     status  (format, spelled name) of the status row Snowflake documents for the statement, or None
+    via     (how, [spelled names]): names of fx the statement passes as a string (IDENTIFIER('t8')) — the sweep
+            files them in a class of their own
     has     (result column, [spelled names]): names the statement's own result must list in that column
             (DESCRIBE: column names; SHOW: object names), or None
     fx      effects on the names model (mc.ref.sf_ident.Catalog.apply)
@@ -122,9 +134,22 @@ class T:
     """
 
     def __init__(self, tid, kind, sql, cols=None, ordered=False, status=None, fx=(), ctx=True, has=None,
-                 session="full"):
+                 session="full", layout="1", via=None):
         self.id, self.kind, self.sql, self.cols, self.ordered = tid, kind, sql, cols, ordered
+        self.via = via  # (how, [spelled names]): names the statement gives otherwise than as an identifier token
         self.status, self.fx, self.ctx, self.has, self.session = status, list(fx), ctx, has, session
+        self.layout = layout  # "1" as written, "2sp" / "nl": every single blank between two tokens doubled / a newline
+
+    def relaid(self, layout: str) -> "T":
+        """The same template in another layout. It is a template of its own (own all-lower reference), so that only
+        letter case varies inside it: nothing is demanded about the layout itself."""
+        sep = {"2sp": "  ", "nl": "\n"}[layout]
+        sql = "".join(
+            sep if (tk.kind == "gap" and tk.text == " ") else (R.MARK + tk.text if tk.name else tk.text)
+            for tk in R.lex(self.sql)
+        )
+        return T(f"{self.id}~{layout}", self.kind, sql, self.cols, self.ordered, self.status, self.fx, self.ctx,
+                 self.has, self.session, layout, self.via)
 
 
 # ---- session flavours -------------------------------------------------------------------------------------------------
@@ -135,7 +160,8 @@ class T:
 #   noschema  the same second connection after USE DATABASE db1: a current database, but no current schema;
 #   q         PRELUDE_Q (objects whose quoted names are NOT upper case) is added, context still db1.s1;
 #   qs        q, then USE SCHEMA "lower_s": the current schema has a quoted lower-case name;
-#   qd        q, then USE SCHEMA "MixedDb"."sX": current database and schema have quoted mixed-case names.
+#   qd        q, then USE SCHEMA "MixedDb"."sX": current database and schema have quoted mixed-case names;
+#   nop       full, on an instance created with nop_regexes (NOP_REGEXES).
 # (statement, effects on the names model)
 PRELUDE_Q = [
     ('create schema "lower_s"', [("schema", '"lower_s"')]),
@@ -158,7 +184,11 @@ SESSIONS = {
     "q": (False, PRELUDE_Q),
     "qs": (False, PRELUDE_Q + [('use schema "lower_s"', [("use_schema", '"lower_s"')])]),
     "qd": (False, PRELUDE_Q + [('use schema "MixedDb"."sX"', [("use_schema", '"MixedDb"."sX"')])]),
+    # the instance is created with nop_regexes=NOP_REGEXES: statements matching one of them are answered by fakesnow
+    # from their text alone
+    "nop": (False, []),
 }
+NOP_REGEXES = [r"^call\s+\w+", r"^GRANT\s", r"^Alter\s+Session\b", r"^copy\s+into\s"]
 
 
 CREATED = "{kind} {name} successfully created."
@@ -468,6 +498,110 @@ TEMPLATES = [
       fx=[("schema", "sy")], session="qd"),
     T("qd_use_schema", "USE", "use schema ~information_schema", ctx=False, session="qd"),
     T("qd_drop_table", "DROP", 'drop table "tQ"', status=(DROPPED, None, '"tQ"'), fx=[("drop", '"tQ"')], session="qd"),
+    # ---- statement families fakesnow answers from the statement TEXT (sqlglot parses them only as exp.Command, or
+    #      fakesnow matches keywords / function names itself with .upper(), == or a regex) and the families it hands
+    #      to DuckDB untouched: the keywords are the flip tokens here. TEXT_FAMILIES lists what must be present. ----
+    # tags (transforms.tag: exp.Alter, exp.Command text, exp.Create kind)
+    T("tag_table_set", "TAG", "alter table ~t set tag cost_center = 'sales'"),
+    T("tag_table_unset", "TAG", "alter table ~t unset tag cost_center"),
+    T("tag_column_modify_set", "TAG", "alter table ~t modify column ~k set tag cost_center = 'sales'"),
+    T("tag_column_alter_unset", "TAG", "alter table ~t alter column ~k unset tag cost_center"),
+    T("tag_schema_set", "TAG", "alter schema ~s1 set tag cost_center = 'sales'"),
+    T("tag_view_set", "TAG", "alter view ~vw set tag cost_center = 'x'"),
+    T("tag_database_set", "TAG", "alter database ~db1 set tag cost_center = 'x'"),
+    T("tag_create", "TAG", "create tag cost_center comment = 'cC'"),
+    T("tag_create_or_replace", "TAG", "create or replace tag cost_center"),
+    T("tag_create_ine", "TAG", "create tag if not exists cost_center"),
+    T("tag_drop", "TAG", "drop tag cost_center"),
+    # users (transforms.create_user: Command keyword and text; show_users)
+    T("user_create", "USER", "create user u1"),
+    T("user_show", "SHOW", "show users"),
+    T("user_alter", "COMMAND", "alter user u1 set password = 'pW'"),
+    T("user_drop", "COMMAND", "drop user u1"),
+    # roles, warehouses, session parameters, grants, stages, procedures: not implemented, handed on as written
+    T("role_create", "COMMAND", "create role r1"),
+    T("role_use", "COMMAND", "use role r1"),
+    T("role_use_secondary", "COMMAND", "use secondary roles all"),
+    T("role_drop", "COMMAND", "drop role r1"),
+    T("warehouse_create", "COMMAND", "create warehouse w1"),
+    T("warehouse_use", "COMMAND", "use warehouse w1"),
+    T("warehouse_alter", "COMMAND", "alter warehouse w1 suspend"),
+    T("session_set", "COMMAND", "alter session set timezone = 'UTC'"),
+    T("session_set_tag", "COMMAND", "alter session set query_tag = 'qT'"),
+    T("session_unset", "COMMAND", "alter session unset query_tag"),
+    T("grant_table", "COMMAND", "grant select on table ~t to role r1"),
+    T("grant_schema", "COMMAND", "grant usage on schema ~s1 to role r1"),
+    T("revoke_table", "COMMAND", "revoke select on table ~t from role r1"),
+    T("stage_create", "COMMAND", "create stage stage1"),
+    T("stage_copy_into", "COMMAND", "copy into ~t from @stage1"),
+    T("stage_put", "COMMAND", "put 'file:///tmp/xY' @stage1"),
+    T("stage_list", "COMMAND", "list @stage1"),
+    T("stage_remove", "COMMAND", "remove @stage1"),
+    T("call", "COMMAND", "call my_proc(1)"),
+    T("execute_immediate", "COMMAND", "execute immediate 'select 1'"),
+    T("explain", "COMMAND", "explain select 1"),
+    T("undrop", "COMMAND", "undrop table ~t"),
+    T("comment_on_schema", "COMMAND", "comment on schema ~s1 is 'cM'"),
+    T("alter_drop_cluster_key", "COMMAND", "alter table ~t drop cluster key"),
+    T("alter_swap", "COMMAND", "alter table ~t swap with ~s"),
+    T("sequence_create", "COMMAND_DDL", "create sequence seq1"),  # may leave objects the digest does not list:
+    T("function_create", "COMMAND_DDL", "create function f1() returns int as '1'"),  # fresh instance per spelling
+    # statements matched by the instance's nop_regexes (cursor.execute: re.match on the text)
+    T("nop_call", "NOP", "call my_proc(1)", session="nop"),
+    T("nop_grant", "NOP", "grant select on table ~t to role r1", session="nop"),
+    T("nop_alter_session", "NOP", "alter session set query_tag = 'qT'", session="nop"),
+    T("nop_copy_into", "NOP", "copy into ~t from @stage1", session="nop"),
+    T("nop_unmatched", "NOP", "revoke select on table ~t from role r1", session="nop"),
+    # more spellings of transactions, DESCRIBE, TRUNCATE, SHOW, SET, CREATE DATABASE / SCHEMA
+    T("tx_start", "TRANSACTION", "start transaction"),
+    T("tx_begin_work", "TRANSACTION", "begin work"),
+    T("tx_begin_name", "TRANSACTION", "begin transaction name tx1"),
+    T("tx_commit_work", "TRANSACTION", "commit work"),
+    T("tx_rollback_work", "TRANSACTION", "rollback work"),
+    T("desc_view", "DESCRIBE", "desc view ~vw", has=("name", ["k", "v"])),
+    T("describe_bare", "DESCRIBE", "describe ~t"),
+    T("desc_bare", "DESCRIBE", "desc ~t"),
+    T("describe_is_view", "DESCRIBE", "describe view ~information_schema.~tables"),
+    T("describe_schema", "DESCRIBE", "describe schema ~s1"),
+    T("describe_database", "DESCRIBE", "describe database ~db1"),
+    T("truncate_bare", "TRUNCATE", "truncate ~t"),
+    T("truncate_if_exists", "TRUNCATE", "truncate table if exists ~t"),
+    T("show_unique_keys", "SHOW", "show unique keys"),
+    T("show_imported_keys", "SHOW", "show imported keys"),
+    T("show_tables_like", "SHOW", "show tables like 'T%'"),
+    T("show_columns", "SHOW", "show columns in table ~t"),
+    T("show_terse_schemas", "SHOW", "show terse schemas"),
+    T("show_databases", "SHOW", "show databases"),
+    T("show_views", "SHOW", "show views"),
+    T("show_warehouses", "SHOW", "show warehouses"),
+    T("show_tables_account", "SHOW", "show tables in account"),
+    T("show_objects_account", "SHOW", "show objects in account"),
+    T("show_parameters", "SHOW", "show parameters"),
+    T("show_variables", "SHOW", "show variables"),
+    T("show_grants", "SHOW", "show grants"),
+    T("show_roles", "SHOW", "show roles"),
+    T("set_multi", "SET", "set (na, nb) = (1, 2)"),
+    T("unset_multi", "UNSET", "unset (pv)"),
+    T("create_database_ine", "CREATE DATABASE", "create database if not exists ~db3", fx=[("database", "db3")], ctx=False),
+    T("create_or_replace_database", "CREATE DATABASE", "create or replace database ~db3",
+      status=(CREATED, "Database", "db3"), fx=[("database", "db3")], ctx=False),
+    T("create_or_replace_schema", "CREATE SCHEMA", "create or replace schema ~s3", status=(CREATED, "Schema", "s3"),
+      fx=[("schema", "s3")]),
+    T("create_table_like", "CREATE TABLE", "create table ~t9 like ~t", status=(CREATED, "Table", "t9"),
+      fx=[("table", "t9", ["k", "v"])]),
+    T("create_temporary", "CREATE TABLE", "create temporary table ~tmp1 (~a int)"),
+    # functions fakesnow recognises by their name as written
+    T("fn_identifier_create", "CREATE TABLE", "create table identifier('t8') (~a int)", status=(CREATED, "Table", "t8"),
+      fx=[("table", "t8", ["a"])], via=("identifier()", ["t8"])),
+    *[
+        T(f"fn_current{suffix}", "FUNCTION", "select current_database(), current_schema()", session=sess)
+        for suffix, sess in (("", "full"), ("@nodb", "nodb"), ("@noschema", "noschema"))
+    ],
+    *[
+        T(f"fn_current_alias{suffix}", "FUNCTION", "select current_database() as ~d, current_schema() as ~x", ["d", "x"],
+          session=sess)
+        for suffix, sess in (("", "full"), ("@noschema", "noschema"))
+    ],
     # ---- connect(database=, schema=): the two arguments behave like unquoted identifiers (no statement: the pair is
     #      re-spelled, then CONNECT_PROBE is executed) ----
     T("connect_args", "CONNECT", "db1 s1", ["k"], True),
@@ -478,6 +612,99 @@ TEMPLATES = [
     T("err_drop_missing", "ERROR", "drop table ~nope"),
     T("err_conversion", "ERROR", "insert into ~t (~k) values ('notanint')"),
 ]
+# the text families once more with two blanks and with a newline between their tokens: a text matcher may look for
+# "SET TAG" with one blank. Each layout is a template of its own, so only letter case varies inside it.
+LAYOUT_KINDS = {"TAG", "USER", "NOP", "COMMAND"}
+TEMPLATES += [t.relaid(lay) for t in list(TEMPLATES) if t.kind in LAYOUT_KINDS for lay in ("2sp", "nl")]
+
+# statement families answered from the statement text (see the TEMPLATES section of that name): family -> the
+# keyword sequence some template of the family must contain (selftest/test_c02.py asserts presence and that each
+# keyword is flipped on its own)
+TEXT_FAMILIES = {
+    "ALTER TABLE SET TAG": ("alter", "table", "set", "tag"),
+    "ALTER TABLE UNSET TAG": ("alter", "table", "unset", "tag"),
+    "ALTER TABLE MODIFY COLUMN SET TAG": ("alter", "table", "modify", "column", "set", "tag"),
+    "ALTER TABLE ALTER COLUMN UNSET TAG": ("alter", "table", "alter", "column", "unset", "tag"),
+    "ALTER SCHEMA SET TAG": ("alter", "schema", "set", "tag"),
+    "ALTER VIEW SET TAG": ("alter", "view", "set", "tag"),
+    "ALTER DATABASE SET TAG": ("alter", "database", "set", "tag"),
+    "CREATE TAG": ("create", "tag"),
+    "DROP TAG": ("drop", "tag"),
+    "CREATE USER": ("create", "user"),
+    "ALTER USER": ("alter", "user"),
+    "DROP USER": ("drop", "user"),
+    "SHOW USERS": ("show", "users"),
+    "CREATE ROLE": ("create", "role"),
+    "USE ROLE": ("use", "role"),
+    "USE SECONDARY ROLES": ("use", "secondary", "roles"),
+    "CREATE WAREHOUSE": ("create", "warehouse"),
+    "USE WAREHOUSE": ("use", "warehouse"),
+    "ALTER WAREHOUSE": ("alter", "warehouse"),
+    "ALTER SESSION SET": ("alter", "session", "set"),
+    "ALTER SESSION UNSET": ("alter", "session", "unset"),
+    "GRANT": ("grant", "on", "to", "role"),
+    "REVOKE": ("revoke", "on", "from", "role"),
+    "CREATE STAGE": ("create", "stage"),
+    "COPY INTO": ("copy", "into", "from"),
+    "PUT": ("put",),
+    "LIST": ("list",),
+    "REMOVE": ("remove",),
+    "CALL": ("call",),
+    "EXECUTE IMMEDIATE": ("execute", "immediate"),
+    "EXPLAIN": ("explain", "select"),
+    "UNDROP": ("undrop", "table"),
+    "CREATE SEQUENCE": ("create", "sequence"),
+    "CREATE FUNCTION": ("create", "function", "returns", "as"),
+    "USE DATABASE": ("use", "database"),
+    "USE SCHEMA": ("use", "schema"),
+    "SET": ("set",),
+    "UNSET": ("unset",),
+    "BEGIN": ("begin",),
+    "BEGIN TRANSACTION": ("begin", "transaction"),
+    "BEGIN WORK": ("begin", "work"),
+    "START TRANSACTION": ("start", "transaction"),
+    "COMMIT": ("commit",),
+    "COMMIT WORK": ("commit", "work"),
+    "ROLLBACK": ("rollback",),
+    "ROLLBACK WORK": ("rollback", "work"),
+    "DESCRIBE TABLE": ("describe", "table"),
+    "DESCRIBE VIEW": ("describe", "view"),
+    "DESC TABLE": ("desc", "table"),
+    "DESC VIEW": ("desc", "view"),
+    "DESCRIBE <name>": ("describe",),
+    "DESC <name>": ("desc",),
+    "TRUNCATE TABLE": ("truncate", "table"),
+    "TRUNCATE <name>": ("truncate",),
+    "TRUNCATE TABLE IF EXISTS": ("truncate", "table", "if", "exists"),
+    "SHOW TABLES": ("show", "tables"),
+    "SHOW TERSE": ("show", "terse"),
+    "SHOW OBJECTS": ("show", "objects"),
+    "SHOW SCHEMAS": ("show", "schemas"),
+    "SHOW PRIMARY KEYS": ("show", "primary", "keys"),
+    "SHOW UNIQUE KEYS": ("show", "unique", "keys"),
+    "SHOW IMPORTED KEYS": ("show", "imported", "keys"),
+    "SHOW TABLES LIKE": ("show", "tables", "like"),
+    "SHOW COLUMNS": ("show", "columns", "in", "table"),
+    "SHOW DATABASES": ("show", "databases"),
+    "SHOW VIEWS": ("show", "views"),
+    "SHOW WAREHOUSES": ("show", "warehouses"),
+    "SHOW ... IN ACCOUNT": ("show", "in", "account"),
+    "SHOW PARAMETERS": ("show", "parameters"),
+    "SHOW VARIABLES": ("show", "variables"),
+    "SHOW GRANTS": ("show", "grants"),
+    "SHOW ROLES": ("show", "roles"),
+    "CREATE DATABASE": ("create", "database"),
+    "CREATE DATABASE IF NOT EXISTS": ("create", "database", "if", "not", "exists"),
+    "CREATE OR REPLACE DATABASE": ("create", "or", "replace", "database"),
+    "CREATE TABLE CLONE": ("create", "table", "clone"),
+    "ALTER TABLE CLUSTER BY": ("alter", "table", "cluster", "by"),
+    "COMMENT ON": ("comment", "on", "is"),
+    "IDENTIFIER()": ("identifier",),
+    "CURRENT_DATABASE()": ("current_database",),
+    "CURRENT_SCHEMA()": ("current_schema",),
+    "MERGE ... THEN DELETE": ("merge", "then", "delete"),
+}
+
 CONNECT_PROBE = "select k from t order by k"
 TPL = {t.id: t for t in TEMPLATES}
 assert len(TPL) == len(TEMPLATES)
@@ -547,7 +774,7 @@ def model_after(tpl: T | None, succeeded: bool = True, session: str | None = Non
 
 # kinds whose statements leave the database, the session context and the variables as they are: their spellings may
 # share one instance, as long as the ground truth proves after every execution that nothing changed (DESIGN 2.2 (i))
-SHARED_KINDS = {"SELECT", "SHOW", "DESCRIBE", "IS_QUERY", "FUNCTION", "ERROR"}
+SHARED_KINDS = {"SELECT", "SHOW", "DESCRIBE", "IS_QUERY", "FUNCTION", "ERROR", "TAG", "COMMAND", "NOP"}
 PK_ROWS = 'select * from "DB1"."S1"."PK" order by all'
 PK_CLEAN = 'delete from "DB1"."S1"."PK" where "ID" = 99'
 
@@ -559,7 +786,7 @@ class Session:
         import fakesnow.instance as inst
         from snowflake.connector.cursor import DictCursor
 
-        self.fs = inst.FakeSnow()
+        self.fs = inst.FakeSnow(nop_regexes=list(NOP_REGEXES)) if flavour == "nop" else inst.FakeSnow()
         self.conn = self.fs.connect(database=database, schema=schema)
         cur = self.conn.cursor(DictCursor)
         for p, _fx in PRELUDE:
@@ -778,11 +1005,15 @@ def sweep_reports(conn, tpl: T, succeeded: bool = True):
     cur = conn.cursor(DictCursor)
     out = []
 
+    via_names = {R.fold(x) for x in tpl.via[1]} if tpl.via else set()
+
     def judge(surface, reported_names, expected_names, what="name"):
         """every expected name must be reported exactly; every reported name must not be a wrong-case variant"""
         rep = list(reported_names)
         for e in sorted(expected_names):
             qn = "quoted" if e in verb else "unquoted"
+            if e in via_names:
+                qn += f",via={tpl.via[0]}"
             if e in rep:
                 out.append((surface, f"kind=case,name={qn}", False, None))
             elif any(r.upper() == e.upper() for r in rep):
@@ -878,7 +1109,7 @@ CANONICAL = ("all:l", "all:u", "all:c", "all:a")
 
 # read-only templates after which the reporting surfaces are swept in the quick tier: one per session flavour (they all
 # leave the flavour's own state behind, so more would repeat the same sweep; thorough sweeps after every template)
-QUICK_SHARED_SWEEPS = {"sel_alias", "cte_fq@nodb", "cte_fq@noschema", "q_select", "qs_select", "qd_select"}
+QUICK_SHARED_SWEEPS = {"sel_alias", "cte_fq@nodb", "cte_fq@noschema", "q_select", "qs_select", "qd_select", "nop_call"}
 
 
 def sweep_labels(tpl: T, tier: str):
@@ -897,7 +1128,11 @@ def sweep_labels(tpl: T, tier: str):
 def in_tier(tpl: T, tier: str) -> bool:
     """quick leaves out the state-changing statements of the no-current-database flavour: the same statements run in
     the no-current-schema flavour, and fresh instances are what the quick tier's time goes into"""
-    return tier != "quick" or not (tpl.session == "nodb" and tpl.kind in QUICK_NODB_SKIPPED_KINDS)
+    if tier != "quick":
+        return True
+    if tpl.layout != "1" and tpl.kind == "COMMAND":
+        return False  # quick re-lays out the families fakesnow answers itself (TAG, USER, NOP); thorough all of them
+    return not (tpl.session == "nodb" and tpl.kind in QUICK_NODB_SKIPPED_KINDS)
 
 
 QUICK_NODB_SKIPPED_KINDS = {"INSERT", "UPDATE", "DELETE", "CREATE TABLE", "CREATE VIEW", "CREATE SCHEMA", "DROP"}
@@ -1088,24 +1323,49 @@ def run(ctx: core.Ctx):
         "pristine ones behaves as on a fresh instance; any execution after which they differ discards the instance",
     ]
     items, cata = plan(ctx.tier)
-    res = ctx.pmap(work, items, chunk=1)
     by_tpl = {}
     absent = {}
     order = {t.id: i for i, t in enumerate(TEMPLATES)}
-    res.sort(key=lambda r: (order[r[0][0]], r[0][1][0][0]))  # canonical order, whatever the seed rotation was
-    for (tid, _texts), out in res:
-        for text, df, detail, findings, own, status, fh in out:
-            by_tpl.setdefault(tid, {})[text] = (df, detail, status, fh)
-            if text != cata[tid]["ref"]:
-                ctx.acc.nontrivial((tid, text))  # an actual comparison: a spelling that differs from the reference
-            for surface, cls, failed, det in own:
-                _report(ctx.acc, surface, cls, failed, det, tid, text)
-            for rec in findings or ():
-                if rec[0] == "absent":
-                    absent[(rec[1], rec[2])] = absent.get((rec[1], rec[2]), 0) + 1
-                    continue
-                surface, cls, failed, det = rec
-                _report(ctx.acc, surface, cls, failed, det, tid, text)
+
+    def absorb(res):
+        res.sort(key=lambda r: (order[r[0][0]], r[0][1][0][0]))  # canonical order, whatever the seed rotation was
+        for (tid, _texts), out in res:
+            for text, df, detail, findings, own, status, fh in out:
+                by_tpl.setdefault(tid, {})[text] = (df, detail, status, fh)
+                if text != cata[tid]["ref"]:
+                    ctx.acc.nontrivial((tid, text))  # an actual comparison: a spelling that differs from the reference
+                for surface, cls, failed, det in own:
+                    _report(ctx.acc, surface, cls, failed, det, tid, text)
+                for rec in findings or ():
+                    if rec[0] == "absent":
+                        absent[(rec[1], rec[2])] = absent.get((rec[1], rec[2]), 0) + 1
+                        continue
+                    surface, cls, failed, det = rec
+                    _report(ctx.acc, surface, cls, failed, det, tid, text)
+
+    absorb(ctx.pmap(work, items, chunk=1))
+    # Attribution pass (quick has single flips in UPPER only): where a whole-statement Capitalised / aLtErNaTiNg
+    # spelling disagrees, the tokens whose UPPER flip already disagrees are also flipped alone in that form, so that
+    # the class names the token and the form exactly as the thorough tier (which has all single flips) does.
+    extra = []
+    for tid in sorted(cata, key=order.get):
+        c, got = cata[tid], by_tpl[tid]
+        idx = R.foldable(c["toks"])
+        hot = [i for i in idx if (t := R.render(c["toks"], {i: "u"})) in got and got[t][0]]
+        todo = []
+        for f in ("c", "a"):
+            whole = R.render(c["toks"], {i: f for i in idx})
+            if whole in got and got[whole][0]:
+                for i in hot:
+                    text = R.render(c["toks"], {i: f})
+                    if text not in got and text not in [x[0] for x in todo]:
+                        todo.append((text, False))
+                        c["case"].append((f"one:{f}:{idx.index(i)}", {i: f}, text))
+        if todo:
+            extra.append((tid, todo))
+    if extra:
+        absorb(ctx.pmap(work, extra, chunk=1, recheck=False))
+    ctx.extra["attribution_pass_spellings"] = sum(len(t) for _tid, t in extra)
     n_case = n_quote = 0
     tokens = {}
     active = [t for t in TEMPLATES if in_tier(t, ctx.tier)]
